@@ -393,6 +393,8 @@ int harness_main(int argc, char** argv, const char* property_id, const std::vect
     return 0;
   }
 
+  double t_first_fail = -1;
+  const double shrink_budget = getenv("VERIF_SHRINK_S") ? atof(getenv("VERIF_SHRINK_S")) : 90.0;
   char params[256];
   snprintf(params, sizeof params, "seed=%llu max_success=%ld max_size=100 max_discard_ratio=20 noshrink=0",
            (unsigned long long)seed, count);
@@ -409,6 +411,12 @@ int harness_main(int argc, char** argv, const char* property_id, const std::vect
         v.push_back(*rc::gen::resize(rc::kNominalSize, rc::gen::inRange<int64_t>(fd.lo, fd.hi + 1)));
     }
     Ctx c;
+    // shrinking budget: the search for a smaller counterexample stops (every further candidate is treated as passing, without being
+    // run) once it has taken VERIF_SHRINK_S seconds (default 90); the counterexample found so far is real either way
+    if (g_st.failed) {
+      if (t_first_fail < 0) t_first_fail = wall();
+      if (wall() - t_first_fail > shrink_budget) return;
+    }
     bool pass = run_case(*sub, v, c);
     if (c.discard) RC_DISCARD("case outside domain");
     if (!pass) RC_FAIL(c.fail);
